@@ -343,6 +343,31 @@ Proof.
 Qed.
 Print Assumptions GenTie_shift_rs.
 
+(* the bit operators: the `$fn_assign(&mut self, rhs: &Uint)` and `$fn(mut self, rhs: Uint)` arms of
+   impl_bit_op! are instantiated as the invocations in src/bits.rs do (bitor / bitand / bitxor) and
+   translated; `u64::bitor_assign(&mut self.limbs[i], rhs.limbs[i])` is the compound assignment *)
+Theorem GenTie_bitops_rs : forall bits a b,
+  0 <= bits -> length a = nlimbsN bits -> length b = nlimbsN bits ->
+  g_bitor_assign bits (nlimbs bits) a b = Bits.op_assign Z.lor a b /\
+  g_bitand_assign bits (nlimbs bits) a b = Bits.op_assign Z.land a b /\
+  g_bitxor_assign bits (nlimbs bits) a b = Bits.op_assign Z.lxor a b /\
+  g_bitor bits (nlimbs bits) a b = Bits.op_assign Z.lor a b /\
+  g_bitand bits (nlimbs bits) a b = Bits.op_assign Z.land a b /\
+  g_bitxor bits (nlimbs bits) a b = Bits.op_assign Z.lxor a b.
+Proof. exact g_bit_ops_eq. Qed.
+Print Assumptions GenTie_bitops_rs.
+
+(* arithmetic_shr, rotate_left, rotate_right: `Uint >> usize` / `<< usize` resolved through the
+   `fn shl(self, rhs: $u)` arm of impl_shift! (wrapping_shl / wrapping_shr), `|` and `|=` through the
+   translated bitor, `BITS.saturating_sub(rhs)`, `rhs % BITS` *)
+Theorem GenTie_arith_rot_rs : forall bits a rhs,
+  0 < bits -> bits < B -> nlimbs bits < B -> length a = nlimbsN bits -> 0 <= rhs ->
+  g_arithmetic_shr bits (nlimbs bits) a rhs = Val (Shift.arithmetic_shr bits a rhs) /\
+  g_rotate_left bits (nlimbs bits) a rhs = Val (Shift.rotate_left bits a rhs) /\
+  g_rotate_right bits (nlimbs bits) a rhs = Val (Shift.rotate_right bits a rhs).
+Proof. exact g_arith_rot_eq. Qed.
+Print Assumptions GenTie_arith_rot_rs.
+
 (* the premises are satisfiable and the generated code computes: reciprocal(2^63) = 2^64 - 1 *)
 Example GenTie_nonvacuous :
   g_reciprocal_mg10 (2 ^ 63) = Val (2 ^ 64 - 1) /\ g_mask 65 = Val 1 /\ g_nlimbs 65 = Val 2 /\
@@ -360,6 +385,9 @@ Example GenTie_nonvacuous :
   g_slice_cmp [5; 1] [9; 1; 0] = Val Lt /\
   g_overflowing_shl 65 2 [0; 1] 1 = Val ([0; 0], true) /\
   g_overflowing_shr 65 2 [1; 1] 64 = Val ([1; 0], true) /\
+  g_rotate_left 65 2 [0; 1] 1 = Val [1; 0] /\
+  g_arithmetic_shr 65 2 [0; 1] 64 = Val [2 ^ 64 - 1; 1] /\
+  g_bitxor 65 2 [5; 1] [3; 1] = Val [6; 0] /\
   g_square_redc 2 [5; 0] [9; 1] 0x71c71c71c71c71c7 = Val [14119730031728298775; 0] /\
   g_div_nxm_normalized [0x1656178c14142000; 0x821415dfe9e81612; 0x1616561616161616; 0x96000016820016]
                        [0x1415dfe9e8161414; 0x1656161616161682; 0x9600001682001616]
